@@ -2,8 +2,10 @@
    Statements only (copied from the lemma libraries); every proof is a bare
    `exact`; see the cited files in coq/proofs for the proofs. *)
 From Coq Require Import List NArith ZArith Bool Arith Sorting.Sorted Sorting.Permutation.
-From D2P Require Import Str Err Xml TableTypes Tables Merge Package Content Save BulletsFacts MergeFacts SaveFacts.
+From D2P Require Import Str Err Xml TableTypes Tables Merge Package Content Save BulletsFacts MergeFacts SaveFacts TablesFacts Walk Collector.
 Import ListNotations.
+Import String.StringSyntax.
+Delimit Scope string_scope with string.
 
 (* every member that is neither a content part nor a relationships part is carried over under its own name, as itself (bytes and ZipInfo) *)
 Theorem C16_untouched_members_copied :
@@ -56,3 +58,16 @@ Theorem C16_second_save_unchanged_partial :
   merge_elems v t = Ok t' -> merge_elems v t' = Ok t'.
 Proof. exact merge_idempotent_partial. Qed.
 Print Assumptions C16_second_save_unchanged_partial.
+
+(* tie to the source: save() rewrites exactly the content part types and the relationships parts (its `overwrite` list in /repo today) *)
+Theorem C16_what_save_rewrites :
+  sort_strs save_overwrite_types = sort_strs (s2l "relationships"%string :: content_file_types).
+Proof. exact save_rewrites_content_and_rels. Qed.
+Print Assumptions C16_what_save_rewrites.
+
+(* CONTENT_FILE_TYPES is officeDocument, header, footer, footnotes, endnotes *)
+Theorem C16_content_types :
+  sort_strs content_file_types
+  = sort_strs (map s2l ["officeDocument"; "header"; "footer"; "footnotes"; "endnotes"]%string).
+Proof. exact content_types_spec. Qed.
+Print Assumptions C16_content_types.
